@@ -1272,4 +1272,137 @@ Proof.
     + apply (IH _ _ H k cl). rewrite dget_dset_other by exact Hne. exact Hk.
 Qed.
 
+
+(* ---- the "treat TRCL" loop: geometries are overwritten in place ------------------------------- *)
+(* before FILL is developed the trees contain no CellRef *)
+Fixpoint ref_free (e : tree) : bool :=
+  match e with
+  | TRef _ => false
+  | TNode _ args => forallb ref_free args
+  | _ => true
+  end.
+
+Definition surf_extends (s s' : state) : Prop :=
+  forall k v, dget k (s_surfs s) = Some v -> dget k (s_surfs s') = Some v.
+
+Lemma Den_ref_free_surfs : forall s s' p, surf_extends s s' ->
+  (forall e b, Den s p e b -> ref_free e = true -> Den s' p e b) /\
+  (forall es bs, DenL s p es bs -> forallb ref_free es = true -> DenL s' p es bs).
+Proof.
+  intros s s' p Hs.
+  apply (Den_DenL_ind T surf P sense s p
+           (fun e b _ => ref_free e = true -> Den s' p e b)
+           (fun es bs _ => forallb ref_free es = true -> DenL s' p es bs)).
+  - intros x o H _. apply DSurf. apply Hs. exact H.
+  - intros c cl b _ _ _ H. discriminate H.
+  - intros op args bs _ IH H. apply DNode. apply IH. exact H.
+  - intros _. apply DNil.
+  - intros e b es bs _ IH1 _ IH2 H. cbn in H. apply andb_true_iff in H. destruct H as [H1 H2].
+    apply DCons; auto.
+Qed.
+
+Definition same_cells (s s' : state) : Prop :=
+  s_cells s' = s_cells s /\ s_cache s' = s_cache s /\ s_nck s' = s_nck s.
+
+Lemma ptg_ref_free : forall ct t e (s : state) e' s',
+  ref_free e = true -> pot_transform_gen ct t e s = Ok (e', s') ->
+  same_cells s s' /\ ref_free e' = true.
+Proof.
+  intros ct t e. induction e as [x|c|c|op args IH] using tree_ind'; intros s e' s' Hr H.
+  - cbn in H. destruct (dget (Z.abs x) (s_surfs s)); [|discriminate]. inversion H; subst.
+    split; [repeat split | reflexivity].
+  - discriminate Hr.
+  - cbn in H. inversion H; subst. split; [repeat split | reflexivity].
+  - cbn in H. cbn in Hr.
+    destruct (mapM_st (pot_transform_gen ct t) args s) as [[args' s1]|] eqn:E; [|discriminate].
+    inversion H; subst e' s'; clear H.
+    assert (G : forall l, (forall a, In a l -> In a args) -> forall s0 l' s0',
+              forallb ref_free l = true -> mapM_st (pot_transform_gen ct t) l s0 = Ok (l', s0') ->
+              same_cells s0 s0' /\ forallb ref_free l' = true).
+    { induction l as [|a r IHl]; intros Hl s0 l' s0' Hrf Hm; cbn in Hm.
+      - inversion Hm; subst. split; [repeat split | reflexivity].
+      - cbn in Hrf. apply andb_true_iff in Hrf. destruct Hrf as [Ha Hrr].
+        destruct (pot_transform_gen ct t a s0) as [[b sa]|] eqn:Ea; [|discriminate].
+        destruct (mapM_st (pot_transform_gen ct t) r sa) as [[bs sb]|] eqn:Eb; [|discriminate].
+        inversion Hm; subst.
+        destruct (IH a (Hl a (or_introl eq_refl)) _ _ _ Ha Ea) as ((A1 & A2 & A3) & A4).
+        destruct (IHl (fun x Hx => Hl x (or_intror Hx)) _ _ _ Hrr Eb) as ((B1 & B2 & B3) & B4).
+        split; [repeat split; congruence|]. cbn. rewrite A4, B4. reflexivity. }
+    destruct (G args (fun a Ha => Ha) _ _ _ Hr E) as (A & B). split; [exact A | exact B].
+Qed.
+
+Lemma apply_trcl_ref_free : forall fuel ts e (s : state) e' s',
+  ref_free e = true -> apply_trcl fuel ts e s = Ok (e', s') ->
+  same_cells s s' /\ ref_free e' = true.
+Proof.
+  intros fuel ts. induction ts as [|t r IH]; intros e s e' s' Hr H; cbn in H.
+  - inversion H; subst. split; [repeat split | exact Hr].
+  - destruct (pot_transform fuel t e s) as [[g1 s1]|] eqn:E1; [|discriminate].
+    assert (A : same_cells s s1 /\ ref_free g1 = true).
+    { unfold Model.pot_transform in E1. destruct (tr_empty t).
+      - inversion E1; subst. split; [repeat split | exact Hr].
+      - exact (ptg_ref_free _ _ _ _ _ _ Hr E1). }
+    destruct A as ((A1 & A2 & A3) & A4).
+    destruct (IH _ _ _ _ A4 H) as ((B1 & B2 & B3) & B4).
+    split; [repeat split; congruence | exact B4].
+Qed.
+
+Notation trcl_phase := (trcl_phase T surf tr_empty teqb tr_surf).
+
+Definition all_ref_free (s : state) : Prop :=
+  forall k cl, dget k (s_cells s) = Some cl -> ref_free (c_geom cl) = true.
+
+Theorem trcl_phase_den : forall fuel keys (s s' : state),
+  fresh_ok s -> s_cache s = [] -> NoDup keys -> all_ref_free s ->
+  trcl_phase fuel keys s = Ok s' ->
+  fresh_ok s' /\ s_cache s' = [] /\ surf_extends s s' /\ all_ref_free s' /\
+  (forall k cl, In k keys -> dget k (s_cells s) = Some cl ->
+     exists g', dget k (s_cells s') = Some (with_geom cl g') /\
+       forall p b, Den s (act_seq (c_trcl cl) p) (c_geom cl) b -> Den s' p g' b) /\
+  (forall k, ~ In k keys -> dget k (s_cells s') = dget k (s_cells s)).
+Proof.
+  intros fuel keys. induction keys as [|k r IH]; intros s s' Hf Hc Hnd Hrf H; cbn in H.
+  - inversion H; subst s'. split; [exact Hf|]. split; [exact Hc|].
+    split; [intros k0 v Hk; exact Hk|]. split; [exact Hrf|]. split; [intros k cl []|].
+    intros k _. reflexivity.
+  - destruct (dget k (s_cells s)) as [cl|] eqn:Ek; [|discriminate].
+    destruct (apply_trcl fuel (c_trcl cl) (c_geom cl) s) as [[g' s1]|] eqn:Ea; [|discriminate].
+    inversion Hnd as [|k' r' Hkr Hr]; subst.
+    destruct (apply_trcl_den _ _ _ _ _ _ (Inv_init s Hf Hc) Ea) as (HI1 & Hx1 & HD1).
+    destruct (apply_trcl_ref_free _ _ _ _ _ _ (Hrf k cl Ek) Ea) as ((C1 & C2 & C3) & C4).
+    set (s2 := mkSt (dset k (with_geom cl g') (s_cells s1)) (s_surfs s1) (s_nck s1) (s_nsk s1)
+                    (s_cache s1) (s_rcache s1)) in H.
+    assert (Hk_le : k <= s_nck s).
+    { destruct (Z_lt_le_dec (s_nck s) k) as [Hlt|Hle]; [|exact Hle].
+      rewrite (proj1 Hf k Hlt) in Ek. discriminate. }
+    assert (Hf2 : fresh_ok s2).
+    { destruct HI1 as [[F1 F2] _]. split; unfold s2; cbn.
+      - intros k0 Hk0. rewrite dget_dset_other by lia. apply F1. exact Hk0.
+      - exact F2. }
+    assert (Hc2 : s_cache s2 = []) by (unfold s2; cbn; rewrite C2; exact Hc).
+    assert (Hrf2 : all_ref_free s2).
+    { intros k0 cl0 Hk0. unfold s2 in Hk0. cbn in Hk0. destruct (Z.eq_dec k0 k) as [->|Hne].
+      - rewrite dget_dset_same in Hk0. inversion Hk0; subst. exact C4.
+      - rewrite dget_dset_other in Hk0 by exact Hne. rewrite C1 in Hk0. exact (Hrf _ _ Hk0). }
+    assert (Hs12 : surf_extends s s2) by (intros k0 v Hk0; unfold s2; cbn; apply (proj2 Hx1); exact Hk0).
+    destruct (IH s2 s' Hf2 Hc2 Hr Hrf2 H) as (Hf' & Hc' & Hs' & Hrf' & Hin' & Hout').
+    split; [exact Hf'|]. split; [exact Hc'|].
+    split; [intros k0 v Hk0; apply Hs'; apply Hs12; exact Hk0|]. split; [exact Hrf'|]. split.
+    + intros k0 cl0 [<-|Hin0] Hk0.
+      * rewrite Ek in Hk0. inversion Hk0; subst cl0. exists g'. split.
+        { rewrite (Hout' k Hkr). unfold s2. cbn. apply dget_dset_same. }
+        intros p b HD. apply (proj1 (Den_ref_free_surfs s1 s' p
+                                      (fun k1 v Hk1 => Hs' k1 v Hk1))); [|exact C4].
+        apply HD1. exact HD.
+      * assert (Hne : k0 <> k) by (intros ->; exact (Hkr Hin0)).
+        assert (Hk2 : dget k0 (s_cells s2) = Some cl0).
+        { unfold s2. cbn. rewrite dget_dset_other by exact Hne. rewrite C1. exact Hk0. }
+        destruct (Hin' k0 cl0 Hin0 Hk2) as (g0 & Hg0 & HD0). exists g0. split; [exact Hg0|].
+        intros p b HD. apply HD0.
+        apply (proj1 (Den_ref_free_surfs s s2 _ Hs12)); [exact HD | exact (Hrf _ _ Hk0)].
+    + intros k0 Hnin. rewrite (Hout' k0 (fun Hin0 => Hnin (or_intror Hin0))).
+      unfold s2. cbn. rewrite dget_dset_other by (intros ->; apply Hnin; left; reflexivity).
+      rewrite C1. reflexivity.
+Qed.
+
 End Proofs.
